@@ -5,7 +5,7 @@ LEVEL = "model_checking"
 
 
 def check(run):
-    cpu_common.run_cpu(run, ["mem", "pert", "edge", "seq", "flags", "keys"],
+    cpu_common.run_cpu(run, ["mem", "pert", "edge", "seq", "flags", "keys", "dbg", "dma"],
                        "mem = every opcode with all pointer registers / operands steered into WRAM, echo, HRAM, VRAM (LCD off), cartridge RAM, sound I/O and ROM; the bus log gives the "
                        "machine cycle of every Mapper.Read/Write and must equal the access plan of SM83!Exec (cycle, direction, address, value); "
                        "pert = the harness rewrites every candidate address before each machine cycle and snapshots it after each cycle, so the value consumed identifies the read cycle "
